@@ -17,9 +17,10 @@ Transcribed (same branches, same order of side effects):
   the table entry itself (`Entry` from the regenerated table: which `EvalX` per side, AND/OR short circuit,
   zero guard, result expression), `EvalFunctionNode.callFunction` (arguments by `eval` = `Type` then `EvalX`,
   a missing reference is passed as a value, then `Funcs[name].Call`);
-* stateful builtins `count`, `sigma`, `spread` with per-expression state (`FnState`); `if`, `isPresent`,
-  the bounds checks of `strSubstring`; every other stateless builtin is an external call `ctx.call`
-  (the harness supplies the library's answers), as is regex matching;
+* stateful builtins `count`, `sigma`, `spread` with per-expression state (`FnState`); `if`, `isPresent`; the
+  deterministic stateless builtins (string functions on bytes, conversions, `abs/min/max`) by their documented
+  meaning (`Lib.builtin`, `Kap/Model/C04Lib.lean`); only the builtins listed in `Lib.oracleFns` are external calls
+  `ctx.call` (the harness supplies the library's answers), as is regex matching; any other name is an error;
 * the entry paths `Expression.Eval` (`evalTop`: `Type`, `EvalX` by type, `recover`), `EvalPredicate`'s
   `Type`-then-`EvalBool` (`evalPred`), direct `EvalX` (`evalDirect`), `CopyReset` (fresh `FnState`, SAME cache), and `kapacitor.EvalPredicate` of the root
   package (`evalPoint`: `fillScope` over `FindReferenceVariables`, then `evalPred`).
@@ -28,7 +29,7 @@ Abstracted: error values are one class (no decision of the repaired evaluator de
 (`strReplace`) are not modelled; the cache is a tree parallel to the expression.
 Core Lean only.
 -/
-import Kap.Model.C04Base
+import Kap.Model.C04Lib
 namespace Kap.C04
 
 inductive Expr (F : Type) where
@@ -56,7 +57,7 @@ structure Ctx (F : Type) where
   ops : FOps F
   tbl : List Entry
   sigs : List Sig
-  reMatch : String → String → Option Bool
+  reMatch : Bytes → Bytes → Option Bool
   call : String → List (Value F) → Option (ORes F)
 
 /-- per-expression state of the stateful builtins (`ExecutionState.Funcs`). -/
@@ -250,22 +251,18 @@ def callFn (fn : String) (args : List (Value F)) (st : FnState F) : Outcome (Val
     match args with
     | [v] => (.ok (.bool (decide (v.ty ≠ .missing))), st)
     | _ => (.err, st)
-  else if fn = "strSubstring" then
-    match args with
-    | [.str s, .int start, .int stop] =>
-      if start < 0 then (.err, st)
-      else if stop < 0 then (.err, st)
-      else if stop > (s.utf8ByteSize : Int) then (.err, st)
-      else if start > stop then (.err, st)
-      else match ctx.call fn args with
+  else
+    match Lib.builtin ops fn args with
+    | some (some v) => (.ok v, st)
+    | some none => (.err, st)
+    | none =>
+      -- not defined by the model for this name / these argument types: an external library call, but only for the
+      -- builtins listed as such; anything else (undefined function, unclassified builtin) is an error
+      if Lib.oracleFns.contains fn then
+        match ctx.call fn args with
         | some (.ok v) => (.ok v, st)
         | _ => (.err, st)
-    | _ => (.err, st)
-  else if ctx.sigs.any (fun s => s.name == fn) then
-    match ctx.call fn args with
-    | some (.ok v) => (.ok v, st)
-    | _ => (.err, st)
-  else (.err, st)
+      else (.err, st)
 
 /-- is `EvalMissing` of this node answered with an error whose text contains "missing value" (which the
 argument evaluation of a function call swallows)? -/
@@ -563,7 +560,7 @@ end
 structure Point (F : Type) where
   time : Int
   fields : List (String × Value F)
-  tags : List (String × String)
+  tags : List (String × Bytes)
 
 /-- `ast.FindReferenceVariables` (as a list; `fillScope` does not depend on order or repetitions). -/
 def refsOf {F : Type} : Expr F → List String
